@@ -6,6 +6,7 @@ package main
 // maps, cooperative goroutines and environment models added.
 
 import (
+	"time"
 	"fmt"
 	"go/token"
 	"go/types"
@@ -106,6 +107,8 @@ type Interp struct {
 	totalInstrs int64
 	verbose     int
 	curInstr    ssa.Instruction
+	deadline    time.Time
+	deadlineHit bool
 	curFn       *ssa.Function
 
 	curFrame          *frame
@@ -704,11 +707,13 @@ func (fr *frame) runFrame() {
 			if in.run.instrs > in.run.budget {
 				abort(abUnwind, fmt.Sprintf("instruction budget %d exceeded in %s", in.run.budget, fr.fn))
 			}
+			if in.run.instrs>>20 != (in.run.instrs-int64(len(instrs)))>>20 && !in.deadline.IsZero() && time.Now().After(in.deadline.Add(30*time.Second)) {
+				in.deadlineHit = true
+				abort(abKill, "time limit of the harness exceeded inside one path")
+			}
 		}
 		for _, instr := range instrs {
-			if decSites != nil {
-				in.curInstr, in.curFn = instr, fr.fn
-			}
+			in.curInstr, in.curFn = instr, fr.fn
 			if !fr.visitInstr(instr) {
 				return
 			}
@@ -1252,6 +1257,9 @@ func (in *Interp) branch(c *Term) bool {
 		in.res.AbsDecided++
 		return false
 	}
+	if in.cfg != nil && in.cfg.AllocPolicy {
+		in.loopPolicy(c)
+	}
 	s := in.solver
 	if d := in.replayEntry('b'); d != nil {
 		taken := d.choice == 0
@@ -1514,4 +1522,55 @@ func (in *Interp) nextPath() bool {
 	}
 	in.solver.pop(in.solver.level)
 	return false
+}
+
+// loopPolicy (C04, with the allocation policy): a decoder must not loop in proportion to a count field whose bytes have
+// not arrived. When one branch site has been decided more than max(1024, 64*len(input)) times on a path and its
+// condition compares against a symbolic value, the obligation "that value is < 2^31" is raised: a model with a larger
+// value makes the native replay spin (kind hang); without such a model the loop is bounded and exploration goes on.
+func (in *Interp) loopPolicy(c *Term) {
+	if in.curInstr == nil || in.run == nil {
+		return
+	}
+	if in.run.siteForks == nil {
+		in.run.siteForks = map[ssa.Instruction]int{}
+	}
+	in.run.siteForks[in.curInstr]++
+	if debugImplied && in.run.siteForks[in.curInstr]%200 == 0 {
+		fmt.Fprintf(os.Stderr, "LOOPPOLICY count %d in %s inputLen=%d\n", in.run.siteForks[in.curInstr], in.curFn, in.run.inputLen)
+	}
+	lim := 1024
+	if l := in.run.inputLen * 64; l > lim {
+		lim = l
+	}
+	if in.run.siteForks[in.curInstr] != lim+1 {
+		return
+	}
+	if debugImplied {
+		fmt.Fprintf(os.Stderr, "LOOPPOLICY site reached %d decisions in %s: %s pos=%d trail=%d\n", lim+1, in.curFn, c.body(), in.pos, len(in.trail))
+	}
+	t := c
+	for t.op == opNot {
+		t = t.args[0]
+	}
+	var x *Term
+	switch t.op {
+	case opBvUlt, opBvUle, opBvSlt, opBvSle, opEq:
+		for _, a := range t.args {
+			if !a.isConst() && a.sort.K == sBV && a.sort.W >= 32 {
+				x = a
+			}
+		}
+	}
+	if x == nil {
+		return
+	}
+	bound := mkBvCmp(opBvUlt, x, mkBV(x.sort.W, 1<<31))
+	label := fmt.Sprintf("a loop in %s runs for a count taken from the input (more than %d iterations, bound not tied to the bytes that arrived)", in.curFn, lim)
+	nv, nk := len(in.res.Violations), len(in.res.KnownHits)
+	in.obligation(bound, label, "hang")
+	if len(in.res.Violations) != nv || len(in.res.KnownHits) != nk || in.res.seenViol["hang|"+label] || in.hasKnownHit("hang|"+label) {
+		// reported: do not follow the loop any further on this path
+		abort(abViolation, label)
+	}
 }
